@@ -284,7 +284,7 @@ CLAIMS = {
              "object must re-target its description printer - this last rule reports an open, recorded finding on "
              "Handler::setUsageParams, see known_findings.json); every call of the visibility predicate passes the current "
              "settings in their places (column-width pass == printing pass); default value, check, constraint and hidden "
-             "mark each depend on their own property only; every display setting is switched by the argument / start flag named after it (UsageParams binders and setters touch the member their reader returns, shortOnly/longOnly values, Handler forwarders call the same-named UsageParams function, the hfUsage*/hfArg* start flags guard exactly their function); isMandatory/isHidden/isDeprecated report one stored flag that every setter of the property sets; the data behind the usage extras (checks, constraints, flags) is modified by the definition-time API only; each pass prints its own caption member and setCaption() sets them in the documented order; the description text goes through the "
+             "mark each depend on their own property only; every display setting is switched by the argument / start flag named after it (UsageParams binders and setters touch the member their reader returns, shortOnly/longOnly values, Handler forwarders call the same-named UsageParams function, the hfUsage*/hfArg* start flags guard exactly their function); isMandatory/isHidden/isDeprecated report one stored flag that every setter of the property sets; the data behind the usage extras (checks, constraints, flags) is modified by the definition-time API only; each pass prints its own caption member and setCaption() sets them in the documented order; every argument class that switches print-default on provides defaultValue() (the base implementation throws); the description text goes through the "
              "word loop of TextBlock, whose no-word-lost rule (C17-R1) is run here as well. Layout is not decided.",
         note="trusts clang AST/CFG; TypedArgBase property getters report the configured properties",
         also=("engine A (cfg.py)",),
